@@ -503,6 +503,11 @@ class StmtExec(Exec):
             outs.extend(self.finish_loop(c, pending, s) for c in cur)
             return outs
         k, spec = self.loop_spec(s)
+        is_zip = isinstance(itv, tuple) and itv[0] == "zip"
+        if is_zip:
+            za, zb = itv[1], itv[2]
+            n_zip = z3.If(z3.Length(za.t) <= z3.Length(zb.t), z3.Length(za.t), z3.Length(zb.t))
+            itv = ("range", z3.IntVal(0), n_zip)
         is_range = isinstance(itv, tuple) and itv[0] == "range"
         g_rest, g_i, g_it = "_rest%d" % k, "_i%d" % k, "_it%d" % k
         if is_range:
@@ -553,6 +558,8 @@ class StmtExec(Exec):
         if is_range:
             it.assume(i_sym.t < hi)
             item = V(INT, i_sym.t)
+            if is_zip:
+                item = PyTup([V(za.ty.elem, za.t[i_sym.t]), V(zb.ty.elem, zb.t[i_sym.t])])
         else:
             ne, hd, tl = iter_head_tail(self.rewrap(itv, it.env[g_rest]))
             it.assume(ne)
@@ -564,6 +571,13 @@ class StmtExec(Exec):
         it.env[g_i] = it.env["_i"] = V(INT, i_sym.t + 1)
         if self.ctx.feasible(it.pc):
             self.bind_target(s.target, item, it)
+            # the loop variables denote elements of the iterated container: mutating them in place would change the container
+            # (not representable in the functional model) -> ownership discipline refuses it
+            al = set(it.env.get("__aliased__", ()))
+            for n in ast.walk(s.target):
+                if isinstance(n, ast.Name) and isinstance(it.env.get(n.id), V) and it.env[n.id].ty.mutable:
+                    al.add(n.id)
+            it.env["__aliased__"] = frozenset(al)
             for o in self.run_block(s.body, it):
                 if o.kind in ("normal", "continue"):
                     self.check_inv("inv_pres", spec, o.st, s.lineno, k)
@@ -604,6 +618,22 @@ class StmtExec(Exec):
                 raise Unsupported("range with step")
             if fn in ("list", "tuple", "iter") and len(node.args) == 1:
                 return self.loop_iter(node.args[0], st)
+            if fn == "zip" and len(node.args) == 2:
+                a = lift(self.ev(node.args[0], st))
+                b = lift(self.ev(node.args[1], st))
+                if isinstance(a, V) and isinstance(b, V) and isinstance(a.ty, SeqT) and isinstance(b.ty, SeqT):
+                    return ("zip", a, b), None
+                raise Unsupported("zip over %r, %r" % (a, b))
+            if fn == "map" and len(node.args) == 2 and isinstance(node.args[0], ast.Call) \
+                    and ast.unparse(node.args[0].func) in ("operator.itemgetter", "itemgetter") and len(node.args[0].args) == 1 \
+                    and isinstance(node.args[0].args[0], ast.Constant):
+                # map(itemgetter(k), xs)  ==  [x[k] for x in xs]   (same generated fold function as that comprehension)
+                comp = ast.ListComp(elt=ast.Subscript(value=ast.Name(id="x", ctx=ast.Load()), slice=node.args[0].args[0], ctx=ast.Load()),
+                                    generators=[ast.comprehension(target=ast.Name(id="x", ctx=ast.Store()), iter=node.args[1], ifs=[],
+                                                                  is_async=0)])
+                ast.copy_location(comp, node)
+                ast.fix_missing_locations(comp)
+                return self.comp_fold(comp, st, "list"), None
         v = self.ev(node, st)
         if isinstance(v, DictItems):
             return v, None
